@@ -1,62 +1,50 @@
-(* C11 - non-vacuity: the hypotheses of the partial theorems are met by concrete, non-trivial
-   histories (these are tests, not obligations) *)
+(* C11 - non-vacuity: the hypotheses of the theorems are met by concrete, non-trivial histories,
+   including the histories that used to break the unrepaired code (these are tests, not
+   obligations) *)
 From Coq Require Import ZArith List Bool Lia.
 From Base Require Import LuaInt.
 From C11 Require Import Gen Model Heap HeapA Spec SpecHeap Common ProofsArena ProofsStack ProofsPool ProofsHeap ProofsHeapNaf.
 Import ListNotations.
 Local Open Scope Z_scope.
 
-Example arena_partial_nonvacuous :
-  let ops := [AAlloc false 16; AAlloc true 8; ARealloc false 0%nat 24; ADealloc 0%nat; AAlloc false 8; AWrite 4120 7] in
-  acfg_ok wit_cfg /\ Forall (aop_dom wit_cfg) ops /\
+Example arena_nonvacuous :
+  let ops := [AAlloc false 16; AAlloc true 8; ARealloc false 0%nat 24; ADealloc 0%nat; AAlloc false 8; AWrite 4120 7;
+              AAlloc false 0; AAlloc false (two64 - 8)] in
+  acfg_ok wit_cfg /\ Forall aop_usize ops /\
   exists s live, arun wit_cfg (arena_init, []) ops = Some (s, live) /\ length live = 2%nat.
 Proof.
   cbn zeta. split; [exact wit_cfg_ok|]. split.
-  - unfold aop_dom, wit_cfg, two64. cbn. repeat constructor; lia.
+  - unfold aop_usize, usize, two64. repeat constructor; lia.
   - eexists. eexists. split; [vm_compute; reflexivity | reflexivity].
 Qed.
 
-Example stack_partial_nonvacuous :
-  let ops := [SAlloc 5; SAlloc 7; SRealloc 0%nat 20; SRealloc 1%nat 3; SDealloc 0%nat; SAlloc 9] in
-  scfg_ok swit_cfg /\ Forall (sop_dom swit_cfg) ops /\
+Example stack_nonvacuous :
+  let ops := [SAlloc 5; SAlloc 7; SRealloc 0%nat 20; SRealloc 1%nat 3; SDealloc 0%nat; SAlloc 9; SAlloc (two64 - 8)] in
+  scfg_ok swit_cfg /\ Forall sop_usize ops /\
   exists s live, srun swit_cfg (stack_init, []) ops = Some (s, live) /\ length live = 2%nat.
 Proof.
   cbn zeta. split; [exact swit_cfg_ok|]. split.
-  - unfold sop_dom, swit_cfg, two64. cbn. repeat constructor; try lia; vm_compute; discriminate.
+  - unfold sop_usize, usize, two64. repeat constructor; lia.
   - eexists. eexists. split; [vm_compute; reflexivity | reflexivity].
 Qed.
 
-Example pool_partial_nonvacuous :
-  let ops := [PAlloc 8; PAlloc 3; PDealloc 1%nat; PAlloc 8; PDeallocAll; PAlloc 1] in
-  pcfg_ok pwit_cfg /\ Forall pop_usize ops /\ prun_dom pwit_cfg (pool_init, []) ops /\
-  exists s, prun pwit_cfg (pool_init, []) ops = Some (s, [mkblk 4096 1]) /\ p_initialized s = true.
+Example pool_nonvacuous :
+  let ops := [PDeallocAll; PAlloc 8; PAlloc 3; PDealloc 1%nat; PAlloc 8; PAlloc 8; PAlloc 8; PAlloc 8] in
+  pcfg_ok pwit_cfg /\ Forall pop_usize ops /\
+  exists s live, prun pwit_cfg (pool_init, []) ops = Some (s, live) /\ p_initialized s = true /\ length live = 4%nat.
 Proof.
-  cbn zeta. split; [exact pwit_cfg_ok|]. split; [|split].
+  cbn zeta. split; [exact pwit_cfg_ok|]. split.
   - unfold pop_usize, usize, two64. repeat constructor; lia.
-  - vm_compute. repeat split; intros; try discriminate; reflexivity.
-  - eexists. split; vm_compute; reflexivity.
-Qed.
-
-Example heap_partial_nonvacuous :
-  let ops := [HAlloc 100; HAlloc 50; HDealloc 1%nat; HRealloc 0%nat 500; HRealloc 0%nat 10; HAlloc 2000] in
-  hcfg_ok hwit_big /\ Forall hop_dom ops /\
-  exists s live, hrun hwit_big (ha_init_state, []) ops = Some (s, live) /\ length live = 2%nat /\
-                 length (ha_chunks s) = 5%nat.
-Proof.
-  cbn zeta. split; [exact hwit_big_ok|]. split.
-  - unfold hop_dom, two63. repeat constructor; lia.
   - eexists. eexists. split; [vm_compute; reflexivity|]. split; reflexivity.
 Qed.
 
-(* the domain of the two partial heap theorems contains histories with shrinking, splitting
-   reallocs (here the chunk after the shrunk one is used) and ends with everything released *)
-Example heap_dom_nonvacuous :
-  let ops := [HAlloc 1000; HAlloc 200; HRealloc 1%nat 100; HDealloc 0%nat; HDealloc 0%nat] in
-  Forall hop_dom ops /\ hrun_dom hwit_big (ha_init_state, []) ops /\
+(* shrinking realloc in front of a free chunk, a size in the wrap-around zone, everything released *)
+Example heap_nonvacuous :
+  let ops := [HAlloc 1000; HRealloc 0%nat 100; HAlloc (two64 - 8); HDealloc 0%nat] in
+  hcfg_ok hwit_big /\ Forall hop_usize ops /\
   exists s, hrun hwit_big (ha_init_state, []) ops = Some (s, []) /\ length (ha_chunks s) = 1%nat.
 Proof.
-  cbn zeta. split; [|split].
-  - unfold hop_dom, two63. repeat constructor; lia.
-  - vm_compute. repeat split; try reflexivity; try exact I.
+  cbn zeta. split; [exact hwit_big_ok|]. split.
+  - unfold hop_usize, usize, two64. repeat constructor; lia.
   - eexists. split; [vm_compute; reflexivity | reflexivity].
 Qed.
